@@ -260,7 +260,7 @@ fn exec_readonly_agree(ops: &[Op]) -> CaseResult {
 }
 
 pub fn run(c: &Ctx) {
-    c.set_rule("(a) exhaustive on one entry: every start permission value 0..=0o777 (512) x every well-formed single clause of the grammar [dfa]:[ugoa]+[-+=][rwx]+ (945) x {file, dir} on Memfs, link->file / link->dir with 64 start values; a seeded sample (quick 1/40, thorough all 945^2 on 16 start values) of double clauses incl. readonly() and secure(); malformed expressions: every single-character deletion / substitution of a sample of well-formed ones + random strings; the same single clauses on a tmpfs Stdfs sandbox for 16 start values; octal values 0..=0o7777 (special bits included) on file and dir from 4 start modes, on Memfs and on Stdfs. Oracle: reference interpreter of the documented grammar applied clause by clause to entries of the matching kind; type bits preserved; links and (without follow) their targets untouched; malformed first clause => Err and unchanged; is_exec/is_readonly == mode bits. (b) random trees (dirs, files, links incl. dangling, various modes/owners) + one chmod/chmod_b/chown/chown_b with every option combination (all/dirs/files/sym x recurse x follow; uid/gid/owner x recurse x follow): full tree equality with the reference model (exactly the targeted entries changed). (c) two hand-made trees (prefix-named sibling directories linked to each other, links to files, dirs, ancestors and nothing; non-default modes and owners) x every path x every chmod_b / chown_b option combination, same oracle; the same trees (minus the dangling link) x calls on a tmpfs Stdfs sandbox against the Memfs twin, std::fs as observer (modes and owners of every entry, link targets outside the call's reach above all). Non-trivial = expression whose first clause targets the other kind, or a tree with a link, or value 0; distinct by case.");
+    c.set_rule("(a) exhaustive on one entry: every start permission value 0..=0o777 (512) x every well-formed single clause of the grammar [dfa]:[ugoa]+[-+=][rwx]+ (945) x {file, dir} on Memfs, link->file / link->dir with 64 start values; a seeded sample (quick 1/40, thorough all 945^2 on 16 start values) of double clauses incl. readonly() and secure(); malformed expressions: every single-character deletion / substitution of a sample of well-formed ones + random strings; the same single clauses on a tmpfs Stdfs sandbox for 16 start values; octal values 0..=0o7777 (special bits included) on file and dir from 4 start modes, on Memfs and on Stdfs. Oracle: reference interpreter of the documented grammar applied clause by clause to entries of the matching kind; type bits preserved; links and (without follow) their targets untouched; malformed first clause => Err and unchanged; is_exec/is_readonly == mode bits. (b) random trees (dirs, files, links incl. dangling, various modes/owners) + one chmod/chmod_b/chown/chown_b with every option combination (all/dirs/files/sym x recurse x follow; uid/gid/owner x recurse x follow): full tree equality with the reference model (exactly the targeted entries changed). (c) two hand-made trees (prefix-named sibling directories linked to each other, links to files, dirs, ancestors and nothing; non-default modes and owners) x every path x every chmod_b / chown_b option combination (incl. octal modes and a symbolic expression on one builder, in both orders), same oracle; the same trees (minus the dangling link) x calls on a tmpfs Stdfs sandbox against the Memfs twin, std::fs as observer (modes and owners of every entry, link targets outside the call's reach above all). Non-trivial = expression whose first clause targets the other kind, or a tree with a link, or value 0; distinct by case.");
     c.assume("symbolic expressions applied through followed links and later-clause malformation only require the failing entry to be unchanged (DESIGN 6.3)");
     let cl = clauses();
     c.note("single_clauses", cl.len());
@@ -475,7 +475,19 @@ pub fn run(c: &Ctx) {
             for p in &paths {
                 for rec in [false, true] {
                     for follow in [false, true] {
-                        for sel in [ChmodSel::All(0o640), ChmodSel::All(0o777), ChmodSel::Dirs(0o701), ChmodSel::Files(0o604), ChmodSel::Sym("d:o+w,f:g-r".into()), ChmodSel::Sym("a:a-x".into())] {
+                        for sel in [
+                            ChmodSel::All(0o640),
+                            ChmodSel::All(0o777),
+                            ChmodSel::Dirs(0o701),
+                            ChmodSel::Files(0o604),
+                            ChmodSel::Sym("d:o+w,f:g-r".into()),
+                            ChmodSel::Sym("a:a-x".into()),
+                            // several options on one builder, the expression set first or last
+                            ChmodSel::Mix { dirs: 0o700, files: 0, sym: "f:a-w".into(), sym_first: false },
+                            ChmodSel::Mix { dirs: 0o700, files: 0, sym: "f:a-w".into(), sym_first: true },
+                            ChmodSel::Mix { dirs: 0, files: 0o600, sym: "d:g+w".into(), sym_first: false },
+                            ChmodSel::Mix { dirs: 0o711, files: 0o640, sym: "a:a+x".into(), sym_first: false },
+                        ] {
                             let mut v = t.clone();
                             v.push(Op::ChmodB(p.clone(), ChmodOpt { sel, recursive: rec, follow }));
                             cases.push(v);
